@@ -119,9 +119,15 @@ def main(tier):
                 stats["functions"] += 1
                 bcx = m["builder"].get(k0, {}).get("cx")
                 if bcx is not None and c != bcx:
-                    tie += 1
-                    if tie <= 3:
-                        ck.broken_ties.append("builder tie: complexity of %s in %s: pyscn %d, Builder.v %d" % (name, m["path"], c, bcx))
+                    same_dead = sorted((a, e) for (a, e, *_r) in m["impl_dead"].get(name, [])) == m["builder"][k0].get("ranges")
+                    if same_dead or m.get("extra") or not rec["c03"]:
+                        # same dead code but another count, or a function outside the construct list that only the graph model can decide
+                        tie += 1
+                        if tie <= 3:
+                            ck.broken_ties.append("builder tie: complexity of %s in %s: pyscn %d, Builder.v %d%s"
+                                                  % (name, m["path"], c, bcx, "" if same_dead else " (the dead ranges differ as well)"))
+                    else:
+                        stats["complexity_differs_with_dead_set"] = stats.get("complexity_differs_with_dead_set", 0) + 1
                 if m.get("extra") or not rec["c03"]:
                     stats["extra_functions"] += 1
                     if c != rec["cx"]:
@@ -136,9 +142,9 @@ def main(tier):
                 impl_dead = {k for k in own if cc.covered(k, ranges)}
                 model_dead = {k for k in rec["dead"] if k in own}
                 if impl_dead != model_dead:
-                    tie += 1
-                    if tie <= 3:
-                        ck.broken_ties.append("model tie: dead statements of %s in %s differ: pyscn %s, Flow.v %s" % (name, m["path"], sorted(impl_dead), sorted(model_dead)))
+                    # the property is relative to the code pyscn itself reports dead: decided below against pyscn's own dead set
+                    # (which statements are dead is the business of C01/C02, not a broken tie of C03)
+                    stats["dead_set_differs_from_model"] = stats.get("dead_set_differs_from_model", 0) + 1
                     recheck.append((m, name, k0, sorted(impl_dead), c))
                     continue
                 stats["dead_decisions"] += rec["cx"] != rec["mccabe"] or 0
@@ -160,6 +166,8 @@ def main(tier):
                      for (m, name, k0, dead, c) in recheck[:40]]
             out = lib.coq_eval("C03_recheck", cc.REQ, "Eval vm_compute in %s.\n" % lib.clist(items))
             vals = lib.parse_coq_values(out)[0]
+            if len(recheck) > 40:
+                ck.broken_ties.append("model tie: dead statements differ from Flow.v in %d functions; only the first 40 were re-decided against pyscn's own dead set" % len(recheck))
             for (m, name, k0, dead, c), v in zip(recheck, vals):
                 if v != c and nviol < 3:
                     nviol += 1
